@@ -19,6 +19,7 @@ EXPLANATION = (
     "sum everything; D5 what a loader hands to magnitudes=/data= is numeric; D6 the 'dat' extension maps to "
     "GriddedForecast.load_ascii; D7 the spacing inferred from the first row is snapped before it scales the edge "
     "grid (shared C01-D6) and the lookup kernel is C01/C02's; D8 arrays read from caller-supplied files and used "
+    "Round 5: D1.double the stored rates keep their precision; shared C20-D3.keeporder (region constructors keep the cell order of the file) and C17-D1 (one owning tile per point). "
     "with 2-D subscripts are forced to rank 2 (ndmin) unless row 0 is consumed as a header. NOT decided: corner "
     "lookups as float facts.")
 CLAUSES = {'D1': 'absolute scaling', 'D2': 'file schema and parallel order', 'D3': 'rate lookup', 'D4': 'axis roles', 'D5': 'numeric magnitudes',
